@@ -23,12 +23,47 @@ from lengths import Undecided, Ret
 
 
 class Arr:
-    """an array / Rotation stack: n rows (n = 1 and rank 1: a single vector / single rotation)"""
-    def __init__(self, n, rank=2):
-        self.n, self.rank = n, rank
+    """an array / Rotation stack: rows (n = 1 and rank 1: a single vector / single rotation).  Every row carries its *recipe*: a nested
+    tuple that says from which input rows it was computed (("c", 2) = row 2 of the object's own path, ("sub", x, y) = x - y, ...)."""
+    def __init__(self, n, rank=2, rows=None, tag="?"):
+        self.rank = rank
+        self.rows = rows if isinstance(rows, ViewRows) else (list(rows) if rows is not None else [(tag, k) for k in range(n)])
+
+    @property
+    def n(self):
+        return len(self.rows)
 
     def __repr__(self):
         return f"Arr(n={self.n}, rank={self.rank})"
+
+
+class ViewRows:
+    """the rows lo..hi of another row list, written through (a NumPy basic slice is a view)"""
+    def __init__(self, base, lo, hi):
+        self.base, self.lo, self.hi = base, lo, max(hi, lo)
+
+    def __len__(self):
+        return self.hi - self.lo
+
+    def __iter__(self):
+        return iter([self.base[k] for k in range(self.lo, self.hi)])
+
+    def __getitem__(self, k):
+        if isinstance(k, slice):
+            return [self.base[j] for j in range(self.lo, self.hi)][k]
+        if k < 0:
+            k += len(self)
+        if not 0 <= k < len(self):
+            raise IndexError(k)
+        return self.base[self.lo + k]
+
+    def __setitem__(self, k, v):
+        if k < 0:
+            k += len(self)
+        self.base[self.lo + k] = v
+
+    def __bool__(self):
+        return len(self) > 0
 
 
 class Obj:
@@ -56,14 +91,17 @@ class PathEval:
         self.problems = problems if problems is not None else []
 
     # ------------------------------------------------------------------ helpers
-    def compat(self, a, b, node, what):
+    def compat(self, a, b, node, what, op="op"):
         """stacks a and b are combined row by row"""
         if isinstance(a, Arr) and isinstance(b, Arr):
             na = 1 if a.rank == 1 else a.n
             nb = 1 if b.rank == 1 else b.n
             if na != nb and 1 not in (na, nb):
                 self.problems.append((node, f"{what}: {na} rows against {nb} rows"))
-            return Arr(max(na, nb), 2 if 2 in (a.rank, b.rank) else 1)
+                raise Problem()
+            n = max(na, nb)
+            rows = [(op, a.rows[k if na > 1 else 0], b.rows[k if nb > 1 else 0]) for k in range(n)] if a.rows and b.rows else []
+            return Arr(n, 2 if 2 in (a.rank, b.rank) else 1, rows)
         raise Undecided(what)
 
     def truth(self, v):
@@ -107,7 +145,7 @@ class PathEval:
                 if isinstance(e.op, ast.Mult):
                     return a * b
             if isinstance(a, Arr) and isinstance(b, Arr) and isinstance(e.op, (ast.Add, ast.Sub, ast.Mult)):
-                return self.compat(a, b, e, "composition / arithmetic of two stacks")
+                return self.compat(a, b, e, "composition / arithmetic of two stacks", {ast.Add: "add", ast.Sub: "sub", ast.Mult: "mul"}[type(e.op)])
             if isinstance(a, tuple) and isinstance(b, tuple) and isinstance(e.op, ast.Add):
                 return a + b
             raise Undecided("binop")
@@ -163,12 +201,12 @@ class PathEval:
                 return v[e.slice.value]
             if isinstance(v, Arr) and v.rank == 2 and isinstance(e.slice, (ast.Constant, ast.UnaryOp)):
                 i_ = self.ev(e.slice, env)
-                if isinstance(i_, int):
-                    return Arr(1, 1)            # one entry of a path
+                if isinstance(i_, int) and -v.n <= i_ < v.n:
+                    return Arr(1, 1, [v.rows[i_]])            # one entry of a path
             sl = self.as_slice(e.slice, env)
             if isinstance(v, Arr) and sl is not None and v.rank == 2:
                 lo, hi = self.bounds(sl, v.n, env)
-                return Arr(max(hi - lo, 0), 2)
+                return Arr(0, 2, ViewRows(v.rows, lo, hi))           # a basic slice is a view: in-place operations on it reach v
             raise Undecided("subscript")
         if isinstance(e, ast.Call):
             return self.call(e, env)
@@ -229,7 +267,7 @@ class PathEval:
                 return args[2]
             raise Undecided("getattr without default")
         if name == "squeeze" and args and isinstance(args[0], Arr):
-            return Arr(1, 1) if args[0].n == 1 else args[0]
+            return Arr(0, 1 if args[0].n == 1 else args[0].rank, args[0].rows)
         if name in ("rotate", "_rotate") and isinstance(f, ast.Attribute):
             recv = self.ev(f.value, env)
             fn = self.resolve("apply_rotation")
@@ -255,28 +293,36 @@ class PathEval:
                 if w[0][0] < 0 or w[0][1] < 0:
                     self.problems.append((c, f"np.pad with a negative width {tuple(w[0])}"))
                     raise Problem()
-                return Arr(args[0].n + w[0][0] + w[0][1], 2)
+                if not args[0].rows:
+                    raise Undecided("padding an empty path")
+                return Arr(0, 2, [args[0].rows[0]] * w[0][0] + list(args[0].rows) + [args[0].rows[-1]] * w[0][1])
             raise Undecided("pad width")
         if name == "reshape" and isinstance(f, ast.Attribute) and args:
             tgt, shp = (args[0], args[1]) if isinstance(args[0], Arr) and len(args) > 1 else (None, None)
-            if tgt is not None and isinstance(shp, tuple) and shp and shp[0] == 1:
-                return Arr(1, 2)
+            if tgt is not None and isinstance(shp, tuple) and shp and shp[0] == 1 and tgt.n == 1:
+                return Arr(1, 2, tgt.rows)
             raise Undecided("reshape")
         if name == "apply" and isinstance(f, ast.Attribute) and args:
             rot = self.ev(f.value, env)
-            return self.compat(rot, args[0], c, "rotation.apply(points)")
-        if name in ("as_quat", "inv", "copy") and isinstance(f, ast.Attribute):
-            return self.ev(f.value, env)
+            return self.compat(rot, args[0], c, "rotation.apply(points)", "rot")
+        if name in ("as_quat", "copy") and isinstance(f, ast.Attribute):
+            v_ = self.ev(f.value, env)
+            return Arr(0, v_.rank, v_.rows) if isinstance(v_, Arr) else v_
+        if name == "inv" and isinstance(f, ast.Attribute):
+            v_ = self.ev(f.value, env)
+            if isinstance(v_, Arr):
+                return Arr(0, v_.rank, [("inv", r_) for r_ in v_.rows])
+            raise Undecided("inv")
         if name in ("from_quat", "array", "asarray") and args and isinstance(args[0], Arr):
-            return args[0]
+            return Arr(0, args[0].rank, args[0].rows)
         # declared summaries of the validators
         if name == "check_format_input_vector" and args:
             if isinstance(args[0], Arr) and isinstance(kw.get("reshape"), tuple):
-                return Arr(args[0].n if args[0].rank == 2 else 1, 2)         # reshape=(-1, 3): always a path
-            return args[0]
+                return Arr(0, 2, args[0].rows)         # reshape=(-1, 3): always a path (an independent copy)
+            return Arr(0, args[0].rank, args[0].rows) if isinstance(args[0], Arr) else args[0]
         if name == "check_format_input_orientation" and args:
             if kw.get("init_format") is True or (len(args) > 1 and args[1] is True):
-                return Arr(args[0].n if isinstance(args[0], Arr) and args[0].rank == 2 else 1, 2)      # quaternions in shape (-1, 4)
+                return Arr(0, 2, args[0].rows) if isinstance(args[0], Arr) else Arr(1, 2, [("unit",)])      # quaternions in shape (-1, 4)
             return (args[0], args[0])
         if name == "check_format_input_anchor" and args:
             return args[0]
@@ -345,6 +391,11 @@ class PathEval:
             nv = 1 if v.rank == 1 else v.n
             if nv not in (1, n):
                 self.problems.append((node, f"{nv} rows are written into a slice of {n} rows"))
+                raise Problem()
+            opn = {ast.Add: "add", ast.Sub: "sub", ast.Mult: "mul"}.get(type(getattr(node, "op", None))) if isinstance(node, ast.AugAssign) else None
+            for k in range(n):
+                r_ = v.rows[k if nv > 1 else 0]
+                base.rows[lo + k] = r_ if opn is None else (opn, base.rows[lo + k], r_)
         elif v is not None:
             raise Undecided("stored value")
 
@@ -370,6 +421,15 @@ class PathEval:
                     a, b = env.get(s.target.id), self.ev(s.value, env)
                     if isinstance(a, int) and isinstance(b, int) and isinstance(s.op, (ast.Add, ast.Sub)):
                         env[s.target.id] = a + b if isinstance(s.op, ast.Add) else a - b
+                    elif isinstance(a, Arr) and isinstance(b, Arr) and isinstance(s.op, (ast.Add, ast.Sub, ast.Mult)) and a.rank == 2:
+                        # in place on the array the name is bound to (possibly a view)
+                        nb = 1 if b.rank == 1 else b.n
+                        if nb not in (1, a.n):
+                            self.problems.append((s, f"{nb} rows are combined in place with {a.n} rows"))
+                            raise Problem()
+                        opn = {ast.Add: "add", ast.Sub: "sub", ast.Mult: "mul"}[type(s.op)]
+                        for k in range(a.n):
+                            a.rows[k] = (opn, a.rows[k], b.rows[k if nb > 1 else 0])
                     else:
                         raise Undecided("augmented assignment")
                 else:
@@ -391,6 +451,31 @@ class PathEval:
                 raise Problem()
             else:
                 raise Undecided(type(s).__name__)
+
+
+# ---------------------------------------------------------------------- row recipes
+RECIPES = {}        # case -> how every row of the resulting paths is computed from the input rows (filled by the drivers)
+
+
+def _show(r):
+    if isinstance(r, tuple) and r and isinstance(r[0], str):
+        if len(r) == 2 and isinstance(r[1], int):
+            return f"{r[0]}[{r[1]}]"
+        if len(r) == 1:
+            return r[0]
+        sym = {"add": "+", "sub": "-", "mul": "*"}.get(r[0])
+        if sym and len(r) == 3:
+            return f"({_show(r[1])} {sym} {_show(r[2])})"
+        return f"{r[0]}(" + ", ".join(_show(x) for x in r[1:]) + ")"
+    return repr(r)
+
+
+def recipe(obj, children=()):
+    out = []
+    for who, o in [("", obj)] + [(f"child{i}.", c) for i, c in enumerate(children, 1)]:
+        out.append(who + "position: " + " | ".join(_show(r) for r in o.attrs["_position"].rows))
+        out.append(who + "orientation: " + " | ".join(_show(r) for r in o.attrs["_orientation"].rows))
+    return out
 
 
 # ---------------------------------------------------------------------- samples and drivers
@@ -419,8 +504,8 @@ def run_move(fn, resolve, records=None):
         for kind, ni in INPUTS:
             for start in STARTS:
                 n += 1
-                obj = Obj(_position=Arr(lenop, 2), _orientation=Arr(lenop, 2))
-                inp = Arr(1, 1) if kind == "scalar" else Arr(ni, 2)
+                obj = Obj(_position=Arr(lenop, 2, tag="c"), _orientation=Arr(lenop, 2, tag="o"))
+                inp = Arr(1, 1, tag="i") if kind == "scalar" else Arr(ni, 2, tag="i")
                 ev = PathEval(resolve)
                 ev.records = records or {}
                 env = {"target_object": obj, "displacement": inp, "start": start}
@@ -442,6 +527,8 @@ def run_move(fn, resolve, records=None):
                         probs.append((sample, fn, f"position path of {a.n} and orientation path of {b.n} entries afterwards"))
                     elif a.n != expected_length(lenop, kind, ni, start):
                         probs.append((sample, fn, f"path length {a.n} afterwards, documented {expected_length(lenop, kind, ni, start)}"))
+                    else:
+                        RECIPES[f"move|{sample}"] = recipe(obj)
     return n, probs, und
 
 
@@ -457,12 +544,12 @@ def run_rotation(fn, resolve, records=None):
                         if anc is not None and par is not None:
                             continue        # parent_path only matters without an explicit anchor
                         n += 1
-                        obj = Obj(_position=Arr(lenop, 2), _orientation=Arr(lenop, 2))
-                        rot = Arr(1, 1) if kind == "scalar" else Arr(ni, 2)
-                        a_ = None if anc is None else (Arr(1, 1) if anc[0] == "scalar" else Arr(anc[1], 2))
+                        obj = Obj(_position=Arr(lenop, 2, tag="c"), _orientation=Arr(lenop, 2, tag="o"))
+                        rot = Arr(1, 1, tag="i") if kind == "scalar" else Arr(ni, 2, tag="i")
+                        a_ = None if anc is None else (Arr(1, 1, tag="a") if anc[0] == "scalar" else Arr(anc[1], 2, tag="a"))
                         ev = PathEval(resolve)
                         ev.records = records or {}
-                        env = {"target_object": obj, "rotation": rot, "anchor": a_, "start": start, "parent_path": None if par is None else Arr(par, 2)}
+                        env = {"target_object": obj, "rotation": rot, "anchor": a_, "start": start, "parent_path": None if par is None else Arr(par, 2, tag="p")}
                         sample = f"path length {lenop}, {kind} rotation of {ni}, start={start!r}, anchor={anc}, parent path={par}"
                         try:
                             try:
@@ -484,6 +571,8 @@ def run_rotation(fn, resolve, records=None):
                                 probs.append((sample, fn, f"position path of {a.n} and orientation path of {b.n} entries afterwards"))
                             elif a.n != expected_length(lenop, k_in, n_in, start):
                                 probs.append((sample, fn, f"path length {a.n} afterwards, documented {expected_length(lenop, k_in, n_in, start)}"))
+                            else:
+                                RECIPES[f"rotate|{sample}"] = recipe(obj)
     return n, probs, None
 
 
@@ -500,11 +589,11 @@ def run_setters(getters, setters, resolve, records=None):
             for b, rank in ((1, 1), (1, 2), (2, 2), (4, 2), (6, 2)):
                 for kids in ((), (1,), (a,), (2, 5)):
                     n += 1
-                    children = [Obj(_position=Arr(c, 2), _orientation=Arr(c, 2)) for c in kids]
-                    obj = Obj(_position=Arr(a, 2), _orientation=Arr(a, 2))
+                    children = [Obj(_position=Arr(c, 2, tag=f"c{i}"), _orientation=Arr(c, 2, tag=f"o{i}")) for i, c in enumerate(kids, 1)]
+                    obj = Obj(_position=Arr(a, 2, tag="c"), _orientation=Arr(a, 2, tag="o"))
                     if children:
                         obj.attrs["children"] = children
-                    inp = Arr(b, rank)
+                    inp = Arr(b, rank, tag="i")
                     ev = PathEval(resolve)
                     ev.records, ev.getters, ev.setters = records or {}, getters, setters
                     sample = f"{prop} setter: own path {a}, new value of {b} row(s) (rank {rank}), children with paths {list(kids)}"
@@ -530,4 +619,55 @@ def run_setters(getters, setters, resolve, records=None):
                             probs.append((sample, sfn, f"{who} ends with a position path of {p_.n} and an orientation path of {o_.n} entries"))
                         elif p_.n != want:
                             probs.append((sample, sfn, f"{who} ends with paths of {p_.n} entries, the new path has {want}"))
+                    if not any(s_ == sample for s_, _n, _t in probs):
+                        RECIPES[f"set|{sample}"] = recipe(obj, children)
     return n, probs, None
+
+
+GOLDEN = __import__("os").path.join(__import__("os").path.dirname(__import__("os").path.abspath(__file__)), "lenpath_golden.json")
+
+
+def all_recipes(repo):
+    """evaluate every case on `repo` -> (recipes, undecided)"""
+    geo = repo.cls("BaseGeo")
+    mods = [geo.mod, repo.mod("magpylib._src.obj_classes.class_BaseTransform")]
+
+    def resolve(name):
+        for m_ in mods:
+            r = repo.resolve_name(m_, name)
+            if r and r[0] == "func":
+                return r[2]
+        return None
+    records = {}
+    for m_ in mods:
+        for c_ in m_.tree.body:
+            if isinstance(c_, ast.ClassDef) and any(ast.unparse(b).endswith("NamedTuple") for b in c_.bases):
+                records[c_.name] = [st.target.id for st in c_.body if isinstance(st, ast.AnnAssign) and isinstance(st.target, ast.Name)]
+    RECIPES.clear()
+    und = []
+    bt = mods[1]
+    for fname, runner in (("apply_move", run_move), ("apply_rotation", run_rotation)):
+        if fname in bt.funcs:
+            u = runner(bt.funcs[fname], resolve, records)[2]
+            if u:
+                und.append(u)
+    u = run_setters(geo.getters, geo.setters, resolve, records)[2]
+    if u:
+        und.append(u)
+    return dict(RECIPES), und
+
+
+if __name__ == "__main__":
+    import json, sys
+    sys.path.insert(0, __import__("os").path.dirname(GOLDEN))
+    from repo import Repo
+    rec, und = all_recipes(Repo(sys.argv[2] if len(sys.argv) > 2 else "/repo"))
+    if sys.argv[1] == "golden":
+        json.dump(rec, open(GOLDEN, "w"), indent=0, sort_keys=True)
+        print(f"{len(rec)} case recipes written to {GOLDEN}; undecided: {und}")
+    else:
+        gold = json.load(open(GOLDEN))
+        diff = [k for k in gold if k in rec and rec[k] != gold[k]]
+        print(f"{len(rec)} cases, {len(diff)} differ from the reference, undecided: {und}")
+        for k in diff[:5]:
+            print(k, "\n   now:", rec[k], "\n   ref:", gold[k])
